@@ -10,7 +10,7 @@ for f in os.listdir(src):
     if os.path.isfile(s) and os.path.getsize(s) < 200000 and not f.endswith('.mmm'):
         shutil.copy(s, os.path.join(d, f))
 m = {"property": prop, "what": what, "needs_to_manifest": needs,
-     "origin": "independent sub-agent given only the property text and a scratch worktree",
+     "origin": os.environ.get("ORIGIN", "independent sub-agent given only the property text and a scratch worktree"),
      "confirmed_by_me": "tools/confirm_break.sh: patch applies to the current /repo HEAD in a scratch worktree, cargo build ok, 193/193 tests pass with the change, the demo's output differs from the unchanged binary as the README says",
      "detected_by": json.loads(detected)}
 if notes:
